@@ -82,7 +82,8 @@ def settings():
 
 def close(a, b):
     a = onp.asarray(a, dtype=float); b = onp.asarray(b, dtype=float)
-    return a.shape == b.shape and bool(onp.all(onp.abs(a - b) <= RT * (1e-12 + onp.max(onp.abs(b)) if b.size else 1.0) + 1e-10))
+    scale = float(onp.max(onp.abs(b))) if b.size else 1.0
+    return a.shape == b.shape and bool(onp.all(onp.abs(a - b) <= RT * scale + 1e-10 * max(scale, 1e-3)))
 
 
 def backward_events(log, fps):
@@ -111,7 +112,8 @@ def single_step(present, rng, tid, which="with_state"):
     real.p = make_params(present, [0.0, 0.0], [0.0] * 3, [0.0] * N, 0.0)
     proxy = ObjectiveProxy(real)
     st = settings()
-    v = np.array([rng.gauss(0, 1) for _ in range(N)])
+    # "every cotangent vector": the pull-back is linear in it, also for cotangents much larger / smaller than the Hessian scale
+    v = np.array([rng.gauss(0, 1) for _ in range(N)]) * 10.0 ** rng.choice([-2, 0, 0, 3])
     x0 = np.array([rng.uniform(-0.2, 0.2) for _ in range(N)])
     ev = [dict(e="Fwd", k=1)]
     try:
@@ -156,8 +158,9 @@ def chain(present, K, rng, tid):
     proxy = ObjectiveProxy(real)
     st = settings()
     G = np.array(DATA["G"])
-    cs = [np.array([rng.gauss(0, 1) for _ in range(N)]) for _ in range(K)]
-    ds = [np.array([rng.gauss(0, 1) for _ in range(3)]) for _ in range(K)]
+    wscale = 10.0 ** rng.choice([-2, 0, 0, 3])        # loss weights = cotangents seen by the solves
+    cs = [np.array([rng.gauss(0, 1) for _ in range(N)]) * wscale for _ in range(K)]
+    ds = [np.array([rng.gauss(0, 1) for _ in range(3)]) * wscale for _ in range(K)]
     th0 = np.array([rng.uniform(0.3, 1) for _ in range(2)]); s0 = np.array([rng.uniform(-0.5, 0.5) for _ in range(3)])
     th2 = np.array([rng.uniform(-0.5, 0.5) for _ in range(N)]); th4 = np.array(rng.uniform(0.2, 1))
 
